@@ -35,6 +35,11 @@ CHECKS = {
         text="Subproc.tla enumerates piece sequences (65 pieces over the shell-word alphabet incl. number-like, operator-like, quoted, non-ASCII and compatibility-character spellings, $NAME, @(..), @$(..), nested forms) x gap assignments x the four bracket forms and computes the expected argument grouping (Words) and runtime function (Func); the real Call node is projected onto word descriptors and TLC validates projection = expectation per argument.",
         note="Oracle is the model (independent of the tokenizer). Bounded: <=2 pieces over the whole alphabet, <=3 (quick) / <=4 (thorough) over core subsets.",
         ref="5/C06"),
+    "C07": dict(
+        technique="TLC enumeration of macro programs from Macro.tla with the spec's expected captured strings as oracle; captured constants of the real tree trace-validated by TLC (WordSplit.tla)",
+        text="Macro.tla enumerates call-macro argument lists (40 segments incl. bracket groups, strings with commas/brackets, f-strings, keywords, invalid Python, comments/newlines in brackets x blanks x trailing comma x 8 hosts x followers), subprocess-macro bodies x 4 forms x paddings, and with-macro blocks (line trees up to 3-4 lines, nested indentation, blank/comment lines, 3 indentation units, nested in an if block, one-line form); the strings found in the real call_macro / enter_macro / subproc_* call must equal the model's expectation and the follower statement must parse as on its own.",
+        note="Oracle is the model. Bounded by MaxArgs/MaxSegs/MaxLines per configuration. Two known findings (with! block starting with a comment; backtick/f-string in a subprocess-macro body).",
+        ref="5/C07"),
     "C08": dict(
         technique="trace validation: real token streams checked by TLC against the TokStream.tla law",
         text="Every finished token stream of the real tokenizer on the TLC-generated input spaces (CharGen sub-alphabets, soup, corpus x layouts) is validated by TLC against TokStream.tla (text=slice, order, gaps only indentation/continuation, line closure, INDENT/DEDENT balance, single ENDMARKER); the first failing clause is named.",
